@@ -687,12 +687,18 @@ fn float_lit(g: &mut G, kind: u8, stat: bool) -> Lit {
     }
     // exponent
     let exp: Option<(char, String, i64)> = if g.chance(55) {
-        let e: i64 = match g.below(8) {
+        let e: i64 = match g.below(10) {
             0 => 0,
             1..=4 => g.range(1, 40) as i64,
             5 | 6 => g.range(41, 5000) as i64,
-            _ => 100000,
+            7 => 100000,
+            // exponents around the widths a code generator may narrow to (i16, i32, u32) and beyond
+            8 => g.pick(&[32767i64, 32768, 65535, 65536, (1 << 31) - 1, 1 << 31, (1 << 31) + 1, (1 << 32) - 1, 1 << 32, (1 << 32) + 1, 1 << 40]),
+            _ => g.range(100001, 5_000_000_000) as i64,
         };
+        if e > 100000 {
+            l.labels.push("float: exponent beyond 32 bits or near a 16/32-bit boundary".into());
+        }
         let neg = g.chance(50);
         let e = if neg { -e } else { e };
         let sg = if neg {
